@@ -7,6 +7,8 @@ CONSTANTS
   Algo = "fixed"
   SeedCopyreg = "live"
   InitGuard = FALSE
+  SharedCtx = FALSE
+  CtxCopy = TRUE
   Scns = {}
 INVARIANT TypeOK
 INVARIANT Inv_FreshStart
@@ -22,4 +24,5 @@ INVARIANT Inv_C14_ViaSetstate
 INVARIANT Inv_C15_Delivery
 INVARIANT Inv_C15_OnlyAddressed
 INVARIANT Inv_C15_Independent
+INVARIANT Inv_C15_NoResidue
 CHECK_DEADLOCK FALSE
